@@ -189,7 +189,8 @@ def place_supernet(torch, m, spec, rng, g):
 
         def clone_like(ks=None):
             if nd['k'] == 'conv1d':
-                return nn.Conv1d(nd['cin'], nd['cout'], nd['ks'], stride=1, dilation=nd['dil'], groups=nd['groups'], bias=rng.random() < 0.6)
+                return nn.Conv1d(nd['cin'], nd['cout'], nd['ks'], stride=1, dilation=nd['dil'], groups=nd['groups'], bias=rng.random() < 0.6,
+                                 padding=nd.get('cpad', 0), padding_mode=rng.choice(PMODES) if nd.get('cpad') else 'zeros')
             k2 = tuple(nd['ks']) if ks is None else (ks, ks)
             pad = nd['padding'] if ks is None else ('same' if nd['padding'] == 'same' else ks // 2)
             dil = nd['dil'] if ks is None else 1
@@ -254,6 +255,61 @@ def randomize_bn(torch, m, rng, g, affine_ok=True):
                 mod.bias = None
             info[n] = [mod.eps, mod.momentum, mod.affine]
     return info
+
+
+PMODES = ['zeros', 'circular', 'reflect', 'replicate']
+
+
+def apply_padding_modes(torch, m, spec, rng):
+    """padding_mode in {zeros, circular, reflect, replicate} as a per-layer attribute of the convolutions that pad (padding > 0):
+    2-D: the layers of the grammar pad by an int > 0 or 'same'; 1-D: the grammar pads causally with a ConstantPad1d in front of an
+    un-padded conv — p in {1, 2} of that amount is moved into the convolution (padding=p on both sides, the explicit pad shrinks by
+    2p, so every shape stays what it was).  The layers are re-created with the same weights; the spec is updated (pmode / cpad)."""
+    import torch.nn as nn
+    nodes = spec['nodes']
+    done = {}
+    second_sites = {a for a, _ in spec.get('aliases', [])}       # their module is the first call site's
+    for i, nd in enumerate(nodes):
+        nm = 'n%d' % i
+        if i in second_sites:
+            continue
+        if nd['k'] == 'conv2d' and nm in m.layers and type(m.layers[nm]) is nn.Conv2d:
+            pads = nd['padding'] != 0 and not (nd['padding'] == 'same' and max(nd['ks']) == 1)
+            if not pads or rng.random() < 0.3:
+                continue
+            mode = rng.choice(PMODES[1:])
+            old = m.layers[nm]
+            new = nn.Conv2d(nd['cin'], nd['cout'], tuple(nd['ks']), stride=nd['stride'], dilation=nd['dil'], groups=nd['groups'], bias=nd['bias'],
+                            padding=nd['padding'], padding_mode=mode)
+        elif nd['k'] == 'conv1d' and nm in m.layers and type(m.layers[nm]) is nn.Conv1d:
+            src = nodes[nd['src']]
+            if src['k'] != 'pad1d' or src['left'] < 2 or rng.random() < 0.3:
+                continue
+            readers = [j for j, q in enumerate(nodes) if q.get('src') == nd['src'] and j != i and not (q['k'] == 'conv1d' and q.get('ks') == nd['ks'] and q.get('cout') == nd['cout'])]
+            if readers:
+                continue
+            p_ = rng.choice([1, 2]) if src['left'] >= 4 else 1
+            mode = rng.choice(PMODES[1:])
+            old = m.layers[nm]
+            new = nn.Conv1d(nd['cin'], nd['cout'], nd['ks'], stride=nd['stride'], dilation=nd['dil'], groups=nd['groups'], bias=nd['bias'],
+                            padding=p_, padding_mode=mode)
+            if not src.get('shrunk'):
+                src['left'] -= 2 * p_
+                src['shrunk'] = True
+                m.layers['n%d' % nd['src']] = nn.ConstantPad1d((src['left'], 0), 0)
+            nd['cpad'] = p_
+        else:
+            continue
+        with torch.no_grad():
+            new.weight.copy_(old.weight)
+            if old.bias is not None:
+                new.bias.copy_(old.bias)
+        new = new.to(old.weight.dtype)
+        new.train(old.training)
+        m.layers[nm] = new
+        nd['pmode'] = mode
+        done[ga.name(i)] = mode
+    return done
 
 
 def reparametrize(torch, m, spec, rng, seed):
@@ -510,6 +566,8 @@ def run_case(torch, seed, cfg):
         o['productions'] = spec.get('productions', [])
         integer = bool(cfg.get('integer'))
         m = ga.build(spec, seed=seed, integer=integer, dtype=torch.float64)
+        if cfg.get('pmode'):
+            o['pmode'] = apply_padding_modes(torch, m, spec, random.Random(seed * 13 + 5))
         alias_call_sites(m, spec.get('aliases', []))
         o['aliases'] = spec.get('aliases', [])
         xs = ga.example_input(spec, torch, seed, integer=integer, dtype=torch.float64)
@@ -564,8 +622,14 @@ def run_case(torch, seed, cfg):
 
         # ---- the reference: the model itself, in eval mode, before conversion
         m.eval()
-        with torch.no_grad():
-            y0 = m(*xs)
+        try:
+            with torch.no_grad():
+                y0 = m(*xs)
+        except RuntimeError as ex0:
+            # e.g. reflect padding wider than a feature map that pooling made tiny: the ORIGINAL cannot run
+            o['skip'] = 'original-does-not-run'
+            o['note'] = str(ex0)[:200]
+            return o
         if not all(bool(torch.isfinite(t).all()) for t in (y0 if isinstance(y0, (tuple, list)) else [y0])):
             o['skip'] = 'original-output-not-finite'
             return o
